@@ -156,24 +156,24 @@ def Ctx.thisUserSub (c : Ctx) (t : Topic) (a : Actor) (want : String) (priv : Pr
       else (c, true)
     if !ok then (c.emit a.sid (ctrl 500 rn), t, none) else
     -- ownership transfer: strip the previous owner, in store then cache (no reply on failure!)
-    let res : Option (Ctx × Topic) :=
+    let res : Ctx × Option Topic :=
       if ownerChange then
         let od := t.pud t.owner
         let od' := { od with given := od.given &&& ~~~modeOwner, want := od.want &&& ~~~modeOwner }
         let (c, ok1) := c.subsUpdate tn t.owner (fun s => { s with want := od'.want, given := od'.given })
-        if !ok1 then none else
+        if !ok1 then (c, none) else
         let (c, ok2) := c.call "TopicOwnerChange" (fun w => match w.row? tn with
           | some r => w.setRow { r with owner := a.uid }
           | none => w)
-        if !ok2 then none else
+        if !ok2 then (c, none) else
         let prev := t.owner
         let t := t.setPud prev od'
         let c := c.notifySubChange t prev a.uid od.want od.given od'.want od'.given ""
-        some (c, { t with owner := a.uid })
-      else some (c, t)
+        (c, some { t with owner := a.uid })
+      else (c, some t)
     match res with
-    | none => (c, t, none)        -- the error is returned without any reply (topic.go:1761, 1764)
-    | some (c, t) =>
+    | (c, none) => (c, t, none)        -- the error is returned without any reply (topic.go:1761, 1764)
+    | (c, some t) =>
     let t := t.setPud a.uid ud
     let changed := oldWant ≠ ud.want ∨ oldGiven ≠ ud.given
     let c := if changed then c.notifySubChange t a.uid a.uid oldWant oldGiven ud.want ud.given a.sid else c
